@@ -698,11 +698,15 @@ class MementoFunctionHashRule(HashRule):
             )
 
     def compute_hash(self) -> Optional[str]:
-        return (
-            self.memento_fn.explicit_version
-            if self.memento_fn.explicit_version is not None
-            else self.memento_fn.code_hash
-        )
+        if self.memento_fn.explicit_version is not None:
+            # An explicit version is an arbitrary string. The hashes of all rules are concatenated
+            # to compute the version of the dependent function, so use a fixed-width digest of the
+            # string: otherwise the versions "1", "23" of two dependencies are indistinguishable
+            # from the versions "12", "3".
+            return hashlib.sha256(
+                self.memento_fn.explicit_version.encode("utf-8")
+            ).hexdigest()[0:16]
+        return self.memento_fn.code_hash
 
     def did_change(self) -> bool:
         # Changes to the definition of a MementoFunctionType are more robust and detected using a
